@@ -63,6 +63,8 @@ type rdScenario struct {
 	Sets     []rdSet
 	Items    []Item
 	Hwm      int64
+	Slow     int // > 0: the application sleeps this many ms after every message (QueueCapacity fills up, the fetcher
+	// blocks in sendMessage, responses are drained slower than MaxWait: batches end with RequestTimedOut instead of EOF)
 }
 
 func itemFirst(it Item) int64 {
@@ -105,7 +107,11 @@ func (sc *rdScenario) args() string {
 	for i, it := range sc.Items {
 		firsts[i] = strconv.FormatInt(itemFirst(it), 10)
 	}
-	return fmt.Sprintf("reader v=%d start=%s q=%d budgets=%s faults=%s trunc=%s sets=%s hwm=%d firsts=%s L=%s",
+	slow := ""
+	if sc.Slow > 0 {
+		slow = fmt.Sprintf(" slow=%d", sc.Slow)
+	}
+	return fmt.Sprintf("reader v=%d start=%s q=%d"+slow+" budgets=%s faults=%s trunc=%s sets=%s hwm=%d firsts=%s L=%s",
 		sc.Ver, sc.Start, sc.Q, strings.Join(bs, ","), fs, tr, ss, sc.Hwm, strings.Join(firsts, ","), layoutText(sc.Items))
 }
 
@@ -255,7 +261,9 @@ func (rb *rdBroker) settle() {
 	t0 := time.Now()
 	for time.Since(t0) < rdSettleMax {
 		rb.mu.Lock()
-		ok := !rb.hang && (rb.lastAtHwm || time.Since(rb.last) > rdQuiet)
+		// quiet must be measured from now on as well: the message the application has just taken may have unblocked
+		// the fetcher, whose next fetch has not reached the broker yet
+		ok := !rb.hang && (rb.lastAtHwm || (time.Since(rb.last) > rdQuiet && time.Since(t0) > rdQuiet))
 		rb.mu.Unlock()
 		if ok {
 			return
@@ -343,6 +351,10 @@ func runReader(sc *rdScenario) string {
 			fmt.Fprintf(os.Stderr, "%8.3f  brk: %s\n", time.Since(t0).Seconds(), fmt.Sprintf(f, a...))
 		}
 	}
+	maxWait := 250 * time.Millisecond
+	if sc.Slow > 0 {
+		maxWait = 400 * time.Millisecond // adjusted batch deadline = t0+300ms; a response of >= 3 records takes longer
+	}
 	rd := kafka.NewReader(kafka.ReaderConfig{
 		Logger:      logger,
 		ErrorLogger: errLogger,
@@ -355,7 +367,7 @@ func runReader(sc *rdScenario) string {
 		}},
 		MinBytes:         1,
 		MaxBytes:         10 << 20,
-		MaxWait:          250 * time.Millisecond,
+		MaxWait:          maxWait,
 		ReadBatchTimeout: 2 * time.Second,
 		QueueCapacity:    sc.Q,
 		ReadBackoffMin:   time.Millisecond,
@@ -382,6 +394,7 @@ func runReader(sc *rdScenario) string {
 
 	var stream []string
 	received, next, atEnd := 0, 0, false
+	haveLast, lastOffset := false, int64(0)
 	lastMsg := time.Now()
 	outcome := ""
 	for outcome == "" {
@@ -391,6 +404,7 @@ func runReader(sc *rdScenario) string {
 			stream = append(stream, "|")
 			next++
 			atEnd = false
+			haveLast = false
 			lastMsg = time.Now()
 		}
 		if atEnd && next == len(sc.Sets) {
@@ -433,6 +447,17 @@ func runReader(sc *rdScenario) string {
 		received++
 		lastMsg = time.Now()
 		atEnd = m.Offset == sc.Hwm-1
+		if haveLast && m.Offset <= lastOffset {
+			// a repeated or out-of-order offset within one position: the run has already failed, do not let it
+			// go on (a redelivery loop would otherwise cost minutes with a slow consumer)
+			outcome = "disorder"
+			break
+		}
+		haveLast, lastOffset = true, m.Offset
+		if sc.Slow > 0 {
+			time.Sleep(time.Duration(sc.Slow) * time.Millisecond)
+			lastMsg = time.Now()
+		}
 	}
 	rb.settle()
 	j := rb.journal(outcome != "done")
@@ -596,6 +621,12 @@ func readerCorpus() (scs []*rdScenario) {
 		mk(ver, "first", 2, []int{150}, nil, -1, 0, []rdSet{{K: 2, O: 112}, {K: 4, O: 100}})
 		mk(ver, "first", 100, []int{1}, nil, -1, 0, []rdSet{{K: 15, O: 114}})
 		mk(ver, "first", 5, []int{1}, nil, -1, 0, []rdSet{{K: 3, O: 103}})
+		// slow consumer, QueueCapacity 1, responses cut at the byte limit inside the next batch: every batch ends
+		// after its (adjusted) deadline, i.e. with RequestTimedOut instead of io.EOF
+		mk(ver, "first", 1, []int{150}, nil, -1, 0, nil)
+		scs[len(scs)-1].Slow = 150
+		mk(ver, "first", 1, []int{1 << 20}, nil, -1, 0, nil)
+		scs[len(scs)-1].Slow = 150
 	}
 	return
 }
@@ -609,6 +640,23 @@ func readerCases(r *rand.Rand, thorough bool) {
 	vers := []int{2, 5, 10}
 	for i := 0; i < n; i++ {
 		scs = append(scs, genReaderScenario(r, vers[i%3]))
+	}
+	// slow-consumer variants (appended so that the scenarios above keep their random draws)
+	nslow := 9
+	if thorough {
+		nslow = 45
+	}
+	for i := 0; i < nslow; i++ {
+		sc := genReaderScenario(r, vers[i%3])
+		nrec := 0
+		for _, it := range sc.Items {
+			nrec += len(it.Recs)
+		}
+		if nrec > 24 || sc.Start == "last" {
+			continue
+		}
+		sc.Slow, sc.Q = 120, 1
+		scs = append(scs, sc)
 	}
 	if rdDebug != "" {
 		var sel []*rdScenario
